@@ -121,6 +121,7 @@ type scriptRunner struct {
 	started    time.Time
 
 	startErr error
+	onStart  func()
 }
 
 func newScriptRunner(spec FakeSpec) *scriptRunner {
@@ -140,6 +141,9 @@ func (r *scriptRunner) exit() {
 
 func (r *scriptRunner) Start(context.Context) error {
 	atomic.AddInt32(&r.starts, 1)
+	if r.onStart != nil {
+		r.onStart()
+	}
 	if r.startErr != nil {
 		return r.startErr
 	}
